@@ -1223,3 +1223,344 @@ Example stop_on_forced_removal_counterpart :
     /\ lookup 0%nat (o_running s) = Some i /\ i_canc i = true /\ is_set (i_sp i) (Some RCancelled) = true
     /\ is_set (i_sp i) (Some RAbandoned) = true /\ o_delays s = [].
 Proof. eexists; eexists. split; [vm_compute; reflexivity |]. cbn. repeat split; reflexivity. Qed.
+
+(* ------------------------------------------------------------------ deepening: the staged stop completes when the cycles continue *)
+
+(* stoppers as FlagSetter produces them: the event is set only by set(), which also fixes `when` *)
+Definition wf_sp (sp : stopper) : Prop := sp_event sp = true -> exists w, sp_when sp = Some w.
+
+Lemma wf_fresh : wf_sp fresh_stopper.
+Proof. intros H; discriminate. Qed.
+
+Lemma wf_set : forall sp r now, wf_sp (sp_set sp r now).
+Proof. intros sp r now _; unfold sp_set; cbn. destruct (sp_when sp); eauto. Qed.
+
+Definition when_or (sp : stopper) (now : Z) : Z := match sp_when sp with Some w => w | None => now end.
+
+Lemma set_when : forall sp r now, sp_when (sp_set sp r now) = Some (when_or sp now).
+Proof. intros; unfold sp_set, when_or; cbn. destruct (sp_when sp); reflexivity. Qed.
+
+Lemma is_set_when : forall sp r, wf_sp sp -> is_set sp r = true -> exists w, sp_when sp = Some w.
+Proof. intros sp r Hwf H. apply Hwf. unfold is_set in H. apply andb_prop in H as [_ H]; exact H. Qed.
+
+Lemma nudge_when : forall flag c now sp ex sp' d ex' a, wf_sp sp -> (exists w, sp_when sp = Some w) ->
+  nudge flag c now sp ex = (sp', d, ex', a) -> sp_when sp' = sp_when sp /\ wf_sp sp'.
+Proof.
+  intros flag c now sp ex sp' d ex' a Hwf [w Hw]; unfold nudge.
+  destruct (is_set sp (Some flag)); [intros H; injection H as <- _ _ _; auto |].
+  destruct (wait_instant false ex); intros H; injection H as <- _ _ _. split; [| apply wf_set].
+  rewrite set_when; unfold when_or; rewrite Hw; reflexivity.
+Qed.
+
+Lemma stage_when : forall h spoll now why sp d0 ex, wf_sp sp ->
+  sp_when (r_sp (stage h spoll now why sp d0 ex)) = Some (when_or sp now) /\ wf_sp (r_sp (stage h spoll now why sp d0 ex)).
+Proof.
+  intros h spoll now why sp d0 ex Hwf. rewrite stage_unfold.
+  assert (Hh : forall sp1 d1 ex1 a1, stage_head now why sp d0 ex = (sp1, d1, ex1, a1) -> sp_when sp1 = Some (when_or sp now) /\ wf_sp sp1).
+  { unfold stage_head; intros sp1 d1 ex1 a1. destruct (is_set sp (Some why)) eqn:E.
+    - intros H; injection H as <- _ _ _. destruct (is_set_when _ _ Hwf E) as [w Hw]. unfold when_or; rewrite Hw; auto.
+    - destruct (wait_instant d0 ex); intros H; injection H as <- _ _ _. split; [apply set_when | apply wf_set]. }
+  destruct (stage_head now why sp d0 ex) as [[[sp1 d1] ex1] a1] eqn:Eh. destruct (Hh _ _ _ _ eq_refl) as [Hw1 Hwf1].
+  destruct d1; [cbn [r_sp]; auto |].
+  destruct (stage_of _ _ _).
+  - destruct (nudge RSignalled false now sp1 ex1) as [[[sp2 d2] ex2] a2] eqn:En; cbn [r_sp].
+    destruct (nudge_when _ _ _ _ _ _ _ _ _ Hwf1 (ex_intro _ _ Hw1) En) as [E1 E2]. rewrite E1; auto.
+  - destruct (nudge RCancelled true now sp1 ex1) as [[[sp2 d2] ex2] a2] eqn:En; cbn [r_sp].
+    destruct (nudge_when _ _ _ _ _ _ _ _ _ Hwf1 (ex_intro _ _ Hw1) En) as [E1 E2]. rewrite E1; auto.
+  - destruct (is_set sp1 (Some RAbandoned)); cbn [r_sp]; [auto |]. split; [| apply wf_set]. rewrite set_when. unfold when_or at 1. rewrite Hw1. reflexivity.
+  - cbn [r_sp]; auto.
+Qed.
+
+Lemma stage_age_next : forall h spoll now why sp d0 ex d, wf_sp sp ->
+  age_of (now + d) (r_sp (stage h spoll now why sp d0 ex)) = age_of now sp + d.
+Proof.
+  intros h spoll now why sp d0 ex d Hwf. destruct (stage_when h spoll now why sp d0 ex Hwf) as [Hw _].
+  unfold age_of. rewrite Hw. unfold when_or. destruct (sp_when sp); lia.
+Qed.
+
+Definition settled (r : sres) : Prop := r_done r = true \/ (r_delays r = [] /\ is_set (r_sp r) (Some RAbandoned) = true).
+
+Lemma stage_settles_in_abandon : forall h spoll now why sp ex,
+  stage_of (eff_backoff h) (eff_timeout h) (age_of now sp) = SAbandon -> settled (stage h spoll now why sp false ex).
+Proof.
+  intros h spoll now why sp ex Hs. destruct (r_done (stage h spoll now why sp false ex)) eqn:Ed; [left; exact Ed | right].
+  pose proof (stage_delays_until_done h spoll now why sp false ex Ed) as H. fold (age_of now sp) in H. rewrite Hs in H. exact H.
+Qed.
+
+Lemma stage_settles_from_cancel : forall h spoll now why sp ex2 ex3, wf_sp sp ->
+  stage_of (eff_backoff h) (eff_timeout h) (age_of now sp) = SCancel ->
+  let r2 := stage h spoll now why sp false ex2 in
+  settled r2 \/ exists d2, 0 < d2 /\ r_delays r2 = [d2] /\ settled (stage h spoll (now + d2) why (r_sp r2) false ex3).
+Proof.
+  intros h spoll now why sp ex2 ex3 Hwf Hs r2. destruct (r_done r2) eqn:Ed; [left; left; exact Ed | right].
+  pose proof (stage_delays_until_done h spoll now why sp false ex2 Ed) as H. fold (age_of now sp) in H. rewrite Hs in H. destruct H as [Hd Hpos].
+  eexists; split; [exact Hpos | split; [exact Hd |]].
+  apply stage_settles_in_abandon. unfold r2. rewrite stage_age_next by exact Hwf. apply stage_next_after_cancel; exact Hs.
+Qed.
+
+(* With a cancellation timeout configured, following the delays the operator returns (one touch each) settles every daemon
+   — ended, or cancelled and finally given up — within three processing cycles, whatever the daemon does. *)
+Theorem stage_completion : forall h spoll now why sp ex1 ex2 ex3 t, wf_sp sp -> eff_timeout h = Some t ->
+  let r1 := stage h spoll now why sp false ex1 in
+  settled r1 \/ exists d1, 0 < d1 /\ r_delays r1 = [d1] /\
+    let r2 := stage h spoll (now + d1) why (r_sp r1) false ex2 in
+    settled r2 \/ exists d2, 0 < d2 /\ r_delays r2 = [d2] /\ settled (stage h spoll (now + d1 + d2) why (r_sp r2) false ex3).
+Proof.
+  intros h spoll now why sp ex1 ex2 ex3 t Hwf Ht r1.
+  destruct (r_done r1) eqn:Ed; [left; left; exact Ed |].
+  pose proof (stage_delays_until_done h spoll now why sp false ex1 Ed) as H. fold (age_of now sp) in H.
+  destruct (stage_when h spoll now why sp false ex1 Hwf) as [_ Hwf1].
+  destruct (stage_of (eff_backoff h) (eff_timeout h) (age_of now sp)) eqn:Es.
+  - destruct H as [Hd Hpos]. right. eexists; split; [exact Hpos | split; [exact Hd |]]. cbv zeta.
+    pose proof (stage_next_after_signal _ _ _ Es) as Hn.
+    rewrite <- (stage_age_next h spoll now why sp false ex1 _ Hwf) in Hn. fold r1 in Hn.
+    destruct (stage_of (eff_backoff h) (eff_timeout h) (age_of (now + (oz (eff_backoff h) - age_of now sp)) (r_sp r1))) eqn:Es2.
+    + contradiction.
+    + apply stage_settles_from_cancel; assumption.
+    + left. apply stage_settles_in_abandon; exact Es2.
+    + apply stage_of_poll in Es2. congruence.
+  - destruct H as [Hd Hpos]. right. eexists; split; [exact Hpos | split; [exact Hd |]]. cbv zeta. left.
+    apply stage_settles_in_abandon. unfold r1. rewrite stage_age_next by exact Hwf. apply stage_next_after_cancel; exact Es.
+  - left. right. exact H.
+  - apply stage_of_poll in Es. congruence.
+Qed.
+
+(* without a cancellation timeout (documented: the daemon is trusted to exit): never cancelled, never abandoned, polled for ever *)
+Theorem stage_without_timeout_polls : forall h spoll now why sp ex, eff_timeout h = None ->
+  let r := stage h spoll now why sp false ex in
+  r_cancel r = false /\ (r_done r = false -> match eff_backoff h with
+                                              | Some b => if age_of now sp <? b then r_delays r = [b - age_of now sp] else r_delays r = [eff_polling h spoll]
+                                              | None => r_delays r = [eff_polling h spoll] end).
+Proof.
+  intros h spoll now why sp ex Ht r. split.
+  - destruct (r_cancel r) eqn:E; [| reflexivity]. destruct (stage_cancel_only_after_backoff h spoll now why sp false ex (or_introl E)) as [t [H _]]. congruence.
+  - intros Ed. pose proof (stage_delays_until_done h spoll now why sp false ex Ed) as H. fold (age_of now sp) in H.
+    unfold stage_of in H. rewrite Ht in H. destruct (eff_backoff h) as [b |]; [destruct (age_of now sp <? b) |]; cbn [oz] in H; tauto.
+Qed.
+
+Example stage_completion_nonvacuous :
+  let h := {| h_kind := KDaemon; h_backoff := Some 1000; h_timeout := Some 2000; h_polling := None |} in
+  let r1 := stage h 1000 5000 RDeleted fresh_stopper false [false; false] in
+  let r2 := stage h 1000 6000 RDeleted (r_sp r1) false [false] in
+  let r3 := stage h 1000 8000 RDeleted (r_sp r2) false [] in
+  r_delays r1 = [1000] /\ r_cancel r1 = false /\ r_delays r2 = [2000] /\ r_cancel r2 = true /\ r_delays r3 = [] /\
+  is_set (r_sp r3) (Some RAbandoned) = true /\ r_done r3 = false.
+Proof. vm_compute. repeat split; reflexivity. Qed.
+
+(* ------------------------------------------------------------------ deepening: a pass of the daemon killer reaches every daemon *)
+
+Definition kstart_of (why : reason) (now : Z) (kv : nat * inst) : label := LKStart (fst kv) (i_ser (snd kv)) why now.
+
+Definition kready (s : ost) (l : list (nat * inst)) : Prop :=
+  forall id i, In (id, i) l -> In (i_ser i) (o_kstop s) /\ exists j, lookup id (o_running s) = Some j /\ i_ser j = i_ser i.
+
+Lemma kstart_run : forall spoll why now l s, kreason why = true -> kready s l ->
+  exists s', run spoll s (map (kstart_of why now) l) = Some s' /\
+    (forall id i, In (id, i) l -> flagged why s' id) /\
+    (forall id, flagged why s id -> flagged why s' id) /\
+    (forall id, lookup id (o_running s') = None <-> lookup id (o_running s) = None) /\
+    o_known s' = o_known s /\ o_forever s' = o_forever s.
+Proof.
+  induction l as [| [id i] l IH]; intros s Hk Hr.
+  - exists s; cbn; repeat split; auto; intros ? ? [].
+  - destruct (Hr id i (or_introl eq_refl)) as [Hin [j [Hj Hs]]].
+    cbn [map run kstart_of fst snd step]. rewrite Hk. apply nmem_In in Hin. rewrite Hin. cbn [orb andb].
+    set (f := fun i0 : inst => {| i_ser := i_ser i0; i_h := i_h i0; i_sp := sp_set (i_sp i0) (Some why) now; i_canc := i_canc i0 |}).
+    assert (Eu : upd_inst s id (i_ser i) f = set_running s (update id (f j) (o_running s))).
+    { unfold upd_inst; rewrite Hj, Hs, Nat.eqb_refl; reflexivity. }
+    rewrite Eu. set (s1 := set_running s (update id (f j) (o_running s))).
+    assert (L1 : lookup id (o_running s1) = Some (f j)) by (unfold s1; prj; apply lookup_update_same; congruence).
+    assert (L2 : forall k, k <> id -> lookup k (o_running s1) = lookup k (o_running s)) by (intros k Hne; unfold s1; prj; apply lookup_update_other; exact Hne).
+    assert (Hr1 : kready s1 l).
+    { intros id2 i2 Hin2. destruct (Hr id2 i2 (or_intror Hin2)) as [Hk2 [j2 [Hj2 Hs2]]]. split; [exact Hk2 |].
+      destruct (Nat.eq_dec id2 id) as [-> | Hne]; [exists (f j); split; [exact L1 | cbn; congruence] | exists j2; rewrite L2 by exact Hne; auto]. }
+    destruct (IH s1 Hk Hr1) as [s' (Hrun & Hall & Hkeep & Hkeys & Hkn & Hfo)].
+    fold (kstart_of why now). exists s'. split; [exact Hrun |]. repeat split.
+    + intros id2 i2 [E | Hin2]; [injection E as -> -> | eapply Hall; eauto].
+      apply Hkeep. intros x Hx. rewrite L1 in Hx; injection Hx as <-. cbn. apply is_set_after_set.
+    + intros id2 Hf. apply Hkeep. intros x Hx. destruct (Nat.eq_dec id2 id) as [-> | Hne].
+      * rewrite L1 in Hx; injection Hx as <-. cbn. apply is_set_mono. apply Hf; exact Hj.
+      * rewrite L2 in Hx by exact Hne. apply Hf; exact Hx.
+    + intros H. apply Hkeys in H. destruct (Nat.eq_dec id0 id) as [-> | Hne]; [congruence | rewrite L2 in H by exact Hne; exact H].
+    + intros H. apply Hkeys. destruct (Nat.eq_dec id0 id) as [-> | Hne]; [congruence | rewrite L2 by exact Hne; exact H].
+    + exact Hkn.
+    + exact Hfo.
+Qed.
+
+(* pause / exit: one pass of the killer over a memory it can still see is accepted by the LTS and leaves EVERY daemon of that
+   memory with the reason on its flag (the stages then follow C09_linear_staged, bounded by C09_linear_stop_bounded);
+   nothing is spawned, ended or forgotten by the pass itself *)
+Theorem killer_pass_flags_all : forall spoll s why now, NoDup (keys (o_running s)) -> o_known s = true -> kreason why = true ->
+  exists s', run spoll s (kpass_labels why now s) = Some s' /\
+    (forall id i, lookup id (o_running s') = Some i -> is_set (i_sp i) (Some why) = true) /\
+    (forall id, lookup id (o_running s') = None <-> lookup id (o_running s) = None) /\ o_forever s' = o_forever s.
+Proof.
+  intros spoll s why now Hnd Hkn Hk. unfold kpass_labels. cbn [run step]. rewrite Hkn. cbn [set_kiter o_kiter].
+  set (s2 := {| o_running := o_running s; o_forever := o_forever s; o_live := o_live s; o_next := o_next s; o_known := o_known s;
+               o_gone := o_gone s; o_kstop := map (fun kv => i_ser (snd kv)) (o_running s) ++ o_kstop s; o_kiter := false; o_delays := o_delays s |}).
+  assert (Hr : kready s2 (o_running s)).
+  { intros id i Hin. split.
+    - unfold s2; prj. apply in_or_app; left. change (i_ser i) with ((fun kv : nat * inst => i_ser (snd kv)) (id, i)). apply in_map; exact Hin.
+    - unfold s2; prj. exists i; split; [apply In_lookup; assumption | reflexivity]. }
+  destruct (kstart_run spoll why now (o_running s) s2 Hk Hr) as [s' (Hrun & Hall & _ & Hkeys & _ & Hfo)].
+  exists s'. split; [exact Hrun |]. split; [| split; [exact Hkeys | exact Hfo]].
+  intros id i Hl. destruct (lookup id (o_running s)) as [i0 |] eqn:E0.
+  - apply (Hall id i0); [apply lookup_In; exact E0 | exact Hl].
+  - apply Hkeys in E0. unfold s2 in E0. congruence.
+Qed.
+
+Theorem killer_pass_reaches_all : forall spoll tr s why now, run spoll init tr = Some s -> o_known s = true -> kreason why = true ->
+  exists s', run spoll s (kpass_labels why now s) = Some s' /\
+    (forall id i, lookup id (o_running s') = Some i -> is_set (i_sp i) (Some why) = true) /\
+    (forall id, lookup id (o_running s') = None <-> lookup id (o_running s) = None) /\ o_forever s' = o_forever s.
+Proof.
+  intros spoll tr s why now Hr. apply killer_pass_flags_all. destruct (run_inv _ _ _ _ init_inv Hr) as [Hnd _]. exact Hnd.
+Qed.
+
+(* ... and a memory the killer cannot see gets nothing: the pass is not even enabled (F7 / F702) *)
+Theorem killer_pass_needs_known : forall spoll s why now, o_known s = false -> run spoll s (kpass_labels why now s) = None.
+Proof. intros spoll s why now H. unfold kpass_labels. cbn [run step]. rewrite H. reflexivity. Qed.
+
+Example killer_pass_nonvacuous :
+  exists s s', run 1000 init [LProc false v_live 0 []] = Some s /\ run 1000 s (kpass_labels RExiting 7 s) = Some s' /\
+    exists i, lookup 0%nat (o_running s') = Some i /\ sp_reason (i_sp i) = Some [RExiting] /\ sp_when (i_sp i) = Some 7.
+Proof. eexists; eexists. split; [vm_compute; reflexivity |]. split; [vm_compute; reflexivity |]. eexists; repeat split; reflexivity. Qed.
+
+(* ------------------------------------------------------------------ deepening: what an event must NOT do *)
+
+Lemma spawn_all_lookup_existing : forall hs s id i, lookup id (o_running s) = Some i -> lookup id (o_running (spawn_all hs s)) = Some i.
+Proof.
+  induction hs as [| [k h] hs IH]; cbn; [auto |]. intros s id i H. apply IH.
+  destruct (nmem k (keys (o_running s))) eqn:E; [exact H |]. prj.
+  apply nmem_false in E. clear IH. revert H E. induction (o_running s) as [| [k' v'] l IHl]; cbn; [discriminate |].
+  destruct (Nat.eqb id k'); [auto |]. intros H E. apply IHl; [exact H |]. intros Hin; apply E; auto.
+Qed.
+
+(* a running daemon/timer whose handler still matches is left completely alone by an event of a live, unpaused object:
+   no reason, no cancellation, same instance *)
+Theorem matching_untouched : forall spoll s v now orc s' id h i,
+  step spoll s (LProc false v now orc) = Some s' -> v_deleting v = false -> v_paused v = false ->
+  In (id, h) (v_matching v) -> ~ In id (o_forever s) -> lookup id (o_running s) = Some i -> lookup id (o_running s') = Some i.
+Proof.
+  intros spoll s v now orc s' id h i; cbn [step]. destruct (o_gone s); [discriminate |]. intros E; injection E as <-.
+  intros Hd Hp Hm Hf Hl. unfold proc; rewrite Hd, Hp.
+  set (hs := filter (fun h0 => negb (nmem (fst h0) (o_forever s))) (v_matching v)).
+  assert (Hin : In id (keys hs)).
+  { change id with (fst (id, h)). apply in_map. apply filter_In; split; [exact Hm |]. cbn. apply negb_true_iff, nmem_false; exact Hf. }
+  pose proof (spawn_all_lookup_existing hs s id i Hl) as H0. set (s0 := spawn_all hs s) in *.
+  set (mism := filter (fun id0 => negb (nmem id0 (keys hs))) (keys (o_running s0))).
+  assert (Hni : ~ In id mism).
+  { unfold mism; rewrite filter_In. intros [_ H]. apply negb_true_iff, nmem_false in H. contradiction. }
+  pose proof (stop_list_keeps spoll now RMismatch mism orc s0 id Hni) as Hk.
+  destruct (stop_list spoll now RMismatch mism orc s0) as [[s2 d2] orc2]. cbn [fst] in Hk. prj. congruence.
+Qed.
+
+Example matching_untouched_nonvacuous :
+  exists s s' i, run 1000 init [LProc false v_live 0 []] = Some s /\ step 1000 s (LProc false v_live 5 []) = Some s' /\
+    lookup 0%nat (o_running s) = Some i /\ lookup 0%nat (o_running s') = Some i.
+Proof. eexists; eexists; eexists. repeat split; vm_compute; reflexivity. Qed.
+
+(* ------------------------------------------------------------------ deepening: _daemon under a set stopper never spins *)
+
+Theorem daemon_tail_terminates : forall p fuel, (3 <= fuel)%nat -> exists n, daemon_tail fuel p = Some n /\ (n <= 1)%nat.
+Proof.
+  intros p fuel Hf. do 3 (destruct fuel as [| fuel]; [lia |]).
+  destruct p as [| [|] |]; cbn; eexists; split; try reflexivity; lia.
+Qed.
+
+(* ------------------------------------------------------------------ deepening: reasons are never taken back *)
+
+Lemma stage_mono : forall h spoll now why sp d0 ex r, is_set sp (Some r) = true -> is_set (r_sp (stage h spoll now why sp d0 ex)) (Some r) = true.
+Proof.
+  intros h spoll now why sp d0 ex r H. rewrite stage_unfold.
+  assert (Hh : forall sp1 d1 ex1 a1, stage_head now why sp d0 ex = (sp1, d1, ex1, a1) -> is_set sp1 (Some r) = true).
+  { unfold stage_head; intros sp1 d1 ex1 a1. destruct (is_set sp (Some why)); [intros E; injection E as <- _ _ _; exact H |].
+    destruct (wait_instant d0 ex); intros E; injection E as <- _ _ _. apply is_set_mono; exact H. }
+  destruct (stage_head now why sp d0 ex) as [[[sp1 d1] ex1] a1] eqn:Eh. pose proof (Hh _ _ _ _ eq_refl) as H1.
+  destruct d1; [exact H1 |]. destruct (stage_of _ _ _).
+  - destruct (nudge RSignalled false now sp1 ex1) as [[[sp2 d2] ex2] a2] eqn:En; cbn [r_sp]. eapply nudge_keeps; eauto.
+  - destruct (nudge RCancelled true now sp1 ex1) as [[[sp2 d2] ex2] a2] eqn:En; cbn [r_sp]. eapply nudge_keeps; eauto.
+  - destruct (is_set sp1 (Some RAbandoned)); cbn [r_sp]; [exact H1 | apply is_set_mono; exact H1].
+  - exact H1.
+Qed.
+
+Lemma turn_keeps_flag : forall spoll now why id i ex s r k, lookup id (o_running s) = Some i ->
+  flagged r s k -> flagged r (fst (turn spoll now why id i ex s)) k.
+Proof.
+  intros spoll now why id i ex s r k Hl Hf. destruct (Nat.eq_dec k id) as [-> | Hne].
+  - unfold turn; cbn [fst].
+    set (rr := stage (i_h i) spoll now why (i_sp i) false ex).
+    set (i' := {| i_ser := i_ser i; i_h := i_h i; i_sp := r_sp rr; i_canc := i_canc i || r_cancel rr |}).
+    set (s1 := set_running s (update id i' (o_running s))).
+    assert (H1 : flagged r s1 id).
+    { intros j; unfold s1; prj. rewrite lookup_update_same by congruence. intros E; injection E as <-. cbn. apply stage_mono. apply Hf; exact Hl. }
+    destruct (r_done rr); [| exact H1]. destruct (finish id s1) eqn:Ef; [| exact H1].
+    intros j Hj. rewrite (finish_removes _ _ _ Ef) in Hj; discriminate.
+  - intros j Hj. rewrite turn_lookup_other in Hj by exact Hne. apply Hf; exact Hj.
+Qed.
+
+Lemma stop_list_keeps_flag : forall spoll now why targets orc s r k,
+  flagged r s k -> flagged r (fst (fst (stop_list spoll now why targets orc s))) k.
+Proof.
+  induction targets as [| id0 rest IH]; intros orc s r k H; [exact H |].
+  rewrite stop_list_cons. destruct (lookup id0 (o_running s)) as [i |] eqn:El; [| apply IH; exact H].
+  match goal with |- context [if fst ?o then _ else _] => destruct (fst o) end.
+  - destruct (finish_some _ _ _ El) as [s' Ef]. rewrite Ef. apply IH.
+    intros j Hj. destruct (Nat.eq_dec k id0) as [-> | Hne]; [rewrite (finish_removes _ _ _ Ef) in Hj; discriminate |].
+    rewrite (finish_lookup_other _ _ _ _ Ef Hne) in Hj. apply H; exact Hj.
+  - match goal with |- context [stop_list ?a ?b ?c ?d ?e ?f] => specialize (IH e f r k); destruct (stop_list a b c d e f) as [[s3 ds] orc3] end.
+    cbn [fst] in *. apply IH. apply turn_keeps_flag; assumption.
+Qed.
+
+(* stops matching: asked with FILTERS_MISMATCH — whether or not the operator is paused at that moment *)
+Theorem stop_on_mismatch_any : forall spoll s v now orc s' id i,
+  step spoll s (LProc false v now orc) = Some s' -> v_deleting v = false ->
+  ~ In id (keys (v_matching v)) -> lookup id (o_running s') = Some i -> is_set (i_sp i) (Some RMismatch) = true.
+Proof.
+  intros spoll s v now orc s' id i Hs Hd Hm. destruct (v_paused v) eqn:Hp; [| eapply stop_on_mismatch; eauto].
+  revert Hs; cbn [step]. destruct (o_gone s); [discriminate |]. intros E; injection E as <-. unfold proc; rewrite Hd, Hp.
+  set (hs := filter (fun h0 => negb (nmem (fst h0) (o_forever s))) (v_matching v)).
+  set (s0 := spawn_all hs s).
+  set (mism := filter (fun id0 => negb (nmem id0 (keys hs))) (keys (o_running s0))).
+  pose proof (stop_list_flags spoll now RMismatch mism orc s0 id) as H.
+  pose proof (stop_list_keys_sub spoll now RMismatch mism orc s0 id) as Hk.
+  destruct (stop_list spoll now RMismatch mism orc s0) as [[s2 d2] orc2]. cbn [fst] in *.
+  pose proof (stop_list_keeps_flag spoll now RPausing (keys (o_running s2)) orc2 s2 RMismatch id) as H3.
+  pose proof (stop_list_keys_sub spoll now RPausing (keys (o_running s2)) orc2 s2 id) as Hk3.
+  destruct (stop_list spoll now RPausing (keys (o_running s2)) orc2 s2) as [[s3 d3] o3]. cbn [fst] in *.
+  rewrite with_delays_running. intros Hl. apply H3; [| exact Hl]. apply H. left. unfold mism. apply filter_In. split.
+  - apply Hk, Hk3. eapply lookup_some_keys; eauto.
+  - apply negb_true_iff, nmem_false. intros Hin. apply Hm. unfold keys, hs in Hin. apply in_map_iff in Hin as [[k h] [Ek Hin]].
+    apply filter_In in Hin as [Hin _]. cbn in Ek; subst k. change id with (fst (id, h)). apply in_map; exact Hin.
+Qed.
+
+(* more non-vacuity: concrete, non-trivial states on which the hypotheses of the implications above hold *)
+Definition v_none : view := {| v_matching := []; v_deleting := false; v_paused := false |}.
+Definition v_paused_live : view := {| v_matching := [(0%nat, h_bt)]; v_deleting := false; v_paused := true |}.
+
+Example stop_on_mismatch_nonvacuous :
+  exists s i, run 1000 init [LProc false (v_bt false) 0 []; LProc false v_none 3 [(false, [false; false])]] = Some s /\
+    lookup 0%nat (o_running s) = Some i /\ is_set (i_sp i) (Some RMismatch) = true /\ o_delays s = [1000].
+Proof. eexists; eexists. split; [vm_compute; reflexivity |]. repeat split; reflexivity. Qed.
+
+Example stop_on_pause_nonvacuous :
+  exists s i, run 1000 init [LProc false v_paused_live 0 [(false, [false; false])]] = Some s /\
+    lookup 0%nat (o_running s) = Some i /\ is_set (i_sp i) (Some RPausing) = true /\ o_live s = [(0%nat, 0%nat)].
+Proof. eexists; eexists. split; [vm_compute; reflexivity |]. repeat split; reflexivity. Qed.
+
+Example own_exit_nonvacuous :
+  exists s s', run 1000 init [LProc false v_live 0 []; LEnd 0 0] = Some s /\ o_forever s = [0%nat] /\ o_running s = [] /\
+    run 1000 s [LProc false v_live 9 []; LProc false v_live 10 []] = Some s' /\ o_running s' = [] /\ o_next s' = 1%nat.
+Proof. eexists; eexists. repeat split; vm_compute; reflexivity. Qed.
+
+Example staged_cancel_abandon_nonvacuous :
+  let sp := {| sp_when := Some 0; sp_reason := Some [RDeleted; RSignalled]; sp_event := true |} in
+  In ACancel (r_acts (stage h_bt 1000 1000 RDeleted sp false [false])) /\
+  In (ASet RAbandoned) (r_acts (stage h_bt 1000 3000 RDeleted sp false [])).
+Proof. vm_compute. split; auto 10. Qed.
+
+Example linear_nonvacuous :
+  let r := linear_stop h_bt RExiting fresh_stopper 100 false {| x_flag := None; x_cancel := Some 125 |} in
+  l_cancelled r = Some 1100 /\ l_end r = 1225 /\ l_done r = true /\
+  l_done (linear_stop h_bt RExiting fresh_stopper 100 false {| x_flag := None; x_cancel := None |}) = false.
+Proof. vm_compute. repeat split; reflexivity. Qed.
